@@ -112,6 +112,9 @@ def gen(rng, tier):
     # both representations of the same logical rows
     for _ in range(50 * n):
         cases.append(base(kind='both', cfg=rng.choice([None, 'gen'])))
+    # large indexes: 255 / 256, and all thousand numeric sub ids but a few / all of them
+    for big in (255, 256, 998, 999, 1000):
+        cases.append(base(nidx=big, bigidx=big, expanded=big % 2 == 0, nrows=8))
     # refusals
     for _ in range(40 * n):
         cases.append(base(kind='notrailer', cfg=rng.choice([None, 'gen'])))
@@ -150,7 +153,8 @@ def materialise(case):
     if case['kind'] == 'noconfig' and case['cfg'] != 'gen-empty':
         table = r.choice(['IP9999T1', 'IP0000T1', '', 'ip0040t1', table + 'X'])
     # index: sub ids duplicate-free, table ids = configured tables + others
-    others = ['IP%04dT1' % x for x in r.sample(range(1, 9999), 6)]
+    # (`bigidx`: an index of many hundred entries - every sub id from 000 to 999 in use)
+    others = ['IP%04dT1' % x for x in r.sample(range(1, 9999), max(6, case.get('bigidx', 0)))]
     pool = list(dict.fromkeys(([table] if len(table) == 8 else []) + [t for t in cfg if len(t) == 8] + others))
     r.shuffle(pool)
     if len(table) == 8 and r.random() < 0.85 and table not in pool[:case['nidx']]:
